@@ -256,6 +256,88 @@ func runQSpec(s *qSpec, maxStates int) *qResult {
 	return res
 }
 
+// runQSweep: for every n in [from,to]: push n elements, then pop them one by one; after EVERY step the length,
+// the head and the full iteration are compared with the reference; midway (after n/2 pops) k elements are pushed
+// again so that a half-drained representation is refilled. Linear scripts of up to ~2000 steps: they cross every
+// growth step and representation switch on the way up and on the way down.
+func runQSweep(s *qSpec, from, to int) *qResult {
+	res := &qResult{spec: s}
+	for n := from; n <= to; n++ {
+		var ops []hapi.QOp
+		id := 0
+		obsv := func() { ops = append(ops, hapi.QOp{Op: "len"}, hapi.QOp{Op: "head"}, hapi.QOp{Op: "iter"}) }
+		for i := 0; i < n; i++ {
+			id++
+			ops = append(ops, hapi.QOp{Op: "push", Arg: id})
+			if i >= n-3 || i%16 == 0 {
+				obsv()
+			}
+		}
+		for i := 0; i < n; i++ {
+			ops = append(ops, hapi.QOp{Op: "pop"})
+			obsv()
+			if i == n/2 {
+				for k := 0; k < 3; k++ {
+					id++
+					ops = append(ops, hapi.QOp{Op: "push", Arg: id})
+				}
+				obsv()
+			}
+		}
+		for k := 0; k < 4; k++ {
+			ops = append(ops, hapi.QOp{Op: "pop"})
+			obsv()
+		}
+		obs := hapi.QueueExec(s.Kind, s.Params, ops)
+		ref := &refQ{prio: s.Prio, fifo: s.Fifo}
+		for i, ob := range obs {
+			res.transitions++
+			if msg := ref.apply(ops[i], ob); msg != "" {
+				pops := 0
+				for _, o := range ops[:i+1] {
+					if o.Op == "pop" {
+						pops++
+					}
+				}
+				res.viol = &explore.Violation{Sig: "C20:" + s.Kind, Msg: fmt.Sprintf("%s: fill %d then drain, after %d pops: %s", s.name(), n, pops, msg)}
+				res.hist = []string{fmt.Sprintf("push x%d", n), fmt.Sprintf("pop x%d (3 pushes after pop %d)", pops, n/2+1)}
+				return res
+			}
+		}
+		if len(obs) < len(ops) {
+			res.viol = &explore.Violation{Sig: "C20:" + s.Kind, Msg: fmt.Sprintf("%s: fill %d then drain: execution stopped early", s.name(), n)}
+			return res
+		}
+	}
+	res.perDepth = []int{to - from + 1}
+	res.sample = fmt.Sprintf("fill n then drain for n=%d..%d", from, to)
+	return res
+}
+
+type qSweep struct {
+	spec     *qSpec
+	from, to int
+}
+
+func c20Sweeps(quick bool) []qSweep {
+	var out []qSweep
+	top := 700
+	if !quick {
+		top = 2100
+	}
+	for _, kind := range []string{"holderqueue", "waitqueue"} {
+		for f := 1; f <= top; f += 50 {
+			out = append(out, qSweep{&qSpec{Kind: kind, Params: []int{0, 0, 0}, Prio: kind == "waitqueue", Fifo: kind == "waitqueue", Alpha: []string{"fill-drain"}}, f, f + 49})
+		}
+	}
+	for _, kind := range []string{"lock", "command", "manager"} {
+		for _, p := range [][]int{{1, 2, 2}, {2, 4, 2}, {4, 16, 4}} {
+			out = append(out, qSweep{&qSpec{Kind: kind, Params: p, Alpha: []string{"fill-drain"}}, 1, 160})
+		}
+	}
+	return out
+}
+
 func c20Specs(quick bool) []*qSpec {
 	var specs []*qSpec
 	nodeAlpha := []string{"push", "pushleft", "pop", "popright", "head", "tail", "len", "iter", "resize", "restructuring", "reset", "freequeue", "hole0", "hole2"}
@@ -309,7 +391,8 @@ func init() {
 		if !c.Quick() {
 			maxStates = 2000000
 		}
-		results := make([]*qResult, len(specs))
+		sweeps := c20Sweeps(c.Quick())
+		results := make([]*qResult, len(specs)+len(sweeps))
 		var wg sync.WaitGroup
 		sem := make(chan struct{}, c.NProc)
 		for i, s := range specs {
@@ -320,6 +403,16 @@ func init() {
 				results[i] = runQSpec(s, maxStates)
 				<-sem
 			}(i, s)
+		}
+		for i, sw := range sweeps {
+			wg.Add(1)
+			go func(i int, sw qSweep) {
+				defer wg.Done()
+				sem <- struct{}{}
+				results[len(specs)+i] = runQSweep(sw.spec, sw.from, sw.to)
+				results[len(specs)+i].spec = &qSpec{Kind: sw.spec.Kind, Params: append(append([]int{}, sw.spec.Params...), sw.from, sw.to), Alpha: sw.spec.Alpha}
+				<-sem
+			}(i, sw)
 		}
 		wg.Wait()
 		states, trans, viol := 0, 0, 0
@@ -351,7 +444,7 @@ func init() {
 		}
 		c.WriteEvidence("model_checking", map[string]interface{}{
 			"states": states, "transitions": trans, "traces_validated_against_impl": trans, "samples": samples, "queues": per, "exhaustive": !capped,
-			"explanation": "explicit-state BFS over operation sequences on each real queue type and constructor parameter set (fresh queue, sequence replayed), from the empty queue and from ramped non-initial states that cross the 6/8/128-entry representation switches; states keyed by the queue's cursors, node sizes and content shape; every returned element, length and iteration is compared with a plain slice deque / stable priority queue",
+			"explanation": "fill-and-drain sweeps (every fill level 1..700 quick / 1..2100 thorough of the per-key queues, 1..160 of the node queues: push n, pop one by one with a refill midway, length + head + full iteration compared after every pop) plus explicit-state BFS over operation sequences on each real queue type and constructor parameter set (fresh queue, sequence replayed), from the empty queue and from ramped non-initial states that cross the 6/8/128-entry representation switches; states keyed by the queue's cursors, node sizes and content shape; every returned element, length and iteration is compared with a plain slice deque / stable priority queue",
 		}, []string{
 			"operation contracts as used by slock: Rellac and Reset empty the queue, PushLeft may refuse, Restructuring drops holes made by in-place nil-ing, Resize and freeQueue do not change the content",
 			"Shrink is not exercised: no call site in slock and no documented contract",
